@@ -50,8 +50,21 @@ def files(ctx):
                 FX.bec2_fixture(ctx, "config", ("cust", "ecc"), k1),
                 FX.bf3_fixture(ctx, "one", k0, comments=()),
             ]
+        # last: two files with LARGE components; damaged at selected positions only (see cases)
+        fs += [FX.bf3_fixture(ctx, "big", k1), FX.bec2_fixture(ctx, "big", ("cust",), k0)]
         _FILES = fs
     return _FILES
+
+
+def big_positions(n):
+    """byte positions of a large binary that are damaged: the whole directory region, every chunk boundary of common sizes, a sparse
+    sweep through the payloads and the tail"""
+    pos = set(range(0, min(n, 260))) | set(range(max(0, n - 48), n))
+    for size in (512, 1024, 4096, 8192):
+        for b in range(size, n, size):
+            pos |= {b - 1, b, b + 1}
+    pos |= set(range(0, n, 211))
+    return sorted(p for p in pos if 0 <= p < n)
 
 
 def prepare(ctx):
@@ -64,8 +77,18 @@ TEXT_SUFFIXES = ["00\n", "\n\n00\n", "0", "\n"]
 
 
 def cases(ctx):
+    nfiles = len(files(ctx))
     for fi, fx in enumerate(files(ctx)):
         yield ("intact", fi)
+        if fi >= nfiles - 2:
+            for pos in big_positions(len(fx.binary)):
+                for c in ("bit0", "bit7", "ff"):
+                    yield ("byte", fi, pos, c)
+            for n in big_positions(len(fx.binary)):
+                yield ("binprefix", fi, n)
+            for bit in (0, 64, 127):
+                yield ("keybit", fi, bit)
+            continue
         for pos in range(len(fx.binary)):
             for c in BYTE_CLASSES:
                 yield ("byte", fi, pos, c)
